@@ -15,7 +15,7 @@ LEVEL_TEXT = ("Control- and data-flow rules on the MIR of the CLI's main() (buil
               "flows only into ExecutionConfig::lazy, --output only into display_json, each --global becomes Value::String of the text "
               "after the first `=`, the functions are Functions::stdlib(), and execute() receives the parsed tree, its source and that "
               "config; (E2.d) no failure in main is dropped (the JSON write error is propagated); plus C14's display_json rules (the file "
-              "is created/truncated and written completely) and C18's traversal rules for ParseError::all, on which the parse-error gate relies.")
+              "is created/truncated and written completely), (A) the option declarations handed to clap are plain flags / single-value options as main reads them, and C18's traversal rules for ParseError::all, on which the parse-error gate relies.")
 LEVEL_NOTE = ("Not decided: byte equality of stdout with the library's output, clap's option parsing, exit codes as observed from a process; "
               "the language loader and grammar compilation are outside the property.")
 
@@ -177,6 +177,52 @@ def run(prog, rep):
         okg = okg and all(c.kind == "TRY" for c in cons)
     rep.check(okg, "C19.R5", "main :: --global", "", "globals.add(Identifier::from(k), Value::String(v.to_string()))? for k=v split at the first `=`", "--global handling changed")
     # E2.d
+    # ---- A: option declarations (what clap is told) agree with how main reads them
+    rep.rule("C19.A", "every option read with is_present is declared as a plain flag (no action, default or value), every option read with value_of/get_many as a "
+                      "single-value option (takes_value(true); Append only for --global; no min/max/multiple values, delimiter or default): otherwise is_present is "
+                      "always true or an option swallows the positional arguments")
+    decls = {}
+    for b, t in body.calls():
+        if is_callee(t, r"clap::(App|Command)::<'help>::arg$|clap::\w+::arg$"):
+            e = strip(tr.operand(t["args"][1]))
+            chain = []
+            while e[0] == "call" and re.search(r"clap::.*Arg.*::(\w+)$", e[1] or ""):
+                m = e[1].rsplit("::", 1)[-1]
+                chain.append((m, [canon(strip(a)) for a in (e[3] if m in ("with_name", "new") else e[3][1:])]))
+                if not e[3] or m in ("with_name", "new"):
+                    break
+                e = strip(e[3][0])
+            name = next((a[0].strip('"&*') for m, a in chain if m in ("with_name", "new") and a), None)
+            if name:
+                decls[name] = list(reversed(chain))
+    reads = {}
+    for b, t in body.calls():
+        m = None
+        if is_callee(t, r"clap::ArgMatches::(is_present|value_of|values_of|get_many|get_one|contains_id)$"):
+            m = callee_fn(t)["def"].rsplit("::", 1)[-1]
+            nm = canon(strip(tr.operand(t["args"][1]))).strip('"&*')
+            reads.setdefault(nm, set()).add(m)
+    FLAG_OK = {"with_name", "new", "short", "long", "help", "long_help", "about", "takes_value", "requires", "alias", "visible_alias", "display_order", "hide", "conflicts_with"}
+    VALUE_OK = {"with_name", "new", "short", "long", "help", "long_help", "about", "takes_value", "requires", "index", "required", "value_name", "alias", "visible_alias", "display_order", "hide", "action"}
+    for nm, how in sorted(reads.items()):
+        d = decls.get(nm)
+        if d is None:
+            rep.violation("C19.A", "option %s :: declared" % nm, f.loc(), "main reads option `%s` but never declares it" % nm)
+            continue
+        meths = {m for m, _a in d}
+        tv = [a[0] for m, a in d if m == "takes_value" and a]
+        if how <= {"is_present", "contains_id"}:
+            ok = meths <= FLAG_OK and all(v == "false" for v in tv)
+            rep.check(ok, "C19.A", "option %s :: plain flag" % nm, f.loc(), "declared with %s" % sorted(meths),
+                      "flag --%s is read with is_present but declared with %s%s: presence no longer means that the user passed it" % (nm, sorted(meths - FLAG_OK) or sorted(meths), " taking a value" if any(v != "false" for v in tv) else ""))
+        else:
+            acts = [a[0] for m, a in d if m == "action" and a]
+            positional = "index" in meths
+            ok = meths <= VALUE_OK and (positional or tv == ["true"]) and all(re.search(r"ArgAction::(Append|Set)\b", a) for a in acts) and \
+                (not acts or "get_many" in how or "values_of" in how or all("ArgAction::Set" in a for a in acts))
+            rep.check(ok, "C19.A", "option %s :: single value" % nm, f.loc(), "declared with %s" % sorted(meths),
+                      "option --%s is declared with %s (takes_value %s, action %s): it no longer takes exactly one value per occurrence" % (nm, sorted(meths - VALUE_OK) or sorted(meths), tv, acts))
+    rep.floor("C19.A", len(reads), 8, "options read by main")
     rep.rule("E2.d", "no failure in main is dropped")
     n2, kinds = e2.run_e2d(prog, rep, [f] + prog.all_closures_under(f), e2.ABSORB)
     rep.floor("E2.d", n2, 12, "fallible calls in main")
